@@ -1205,13 +1205,14 @@ class Interp:
         q = fi.qualname
         self.call_log.append(q)
         c = self.contracts.get(q)
-        if c is not None:
+        if c is not None and q not in getattr(self, "opaque_calls", ()):
             return c.apply(self, pos, kw, self_val=self_val, cls_val=cls_val)
         if q in getattr(self, "opaque_calls", ()):
             # the contract under verification declares this callee irrelevant to its clauses: the
             # result is an unconstrained opaque value; "operands unchanged" is the callee's own
             # C05 frame obligation (pyvc.own), listed as an assumption of this proof
             self.ctx.trusted.add(f"opaque call: {q} (result unconstrained; operands unchanged by its C05 frame obligation)")
+            self.ctx.log_ghost("opaquecall:" + q.split(".")[-1], dict(pos=list(pos), kw=dict(kw), self=self_val))
             return Opaque("result-of-" + q.split(".")[-1])
         if self.inline is not None and q not in self.inline and fi.kind != "property":
             raise PathAbort(f"call of {q} without contract (not inlinable)", self.ctx.cur_line)
